@@ -235,8 +235,8 @@ def prelude_text():
 
 
 _ID_PATTERNS = [
-    (re.compile(r'\("Pickle", \d+\)'), '("Pickle", <id>)'),
-    (re.compile(r'\("IOSpec", \d+, \d+\)'), '("IOSpec", <id>, <id>)'),
+    (re.compile(r'\("Pickle", \d+(, "[a-z]+")?\)'), lambda mo: '("Pickle", <id>%s)' % (mo.group(1) or "")),
+    (re.compile(r'\("IOSpec", \d+, \d+(, "[a-z]+")?\)'), lambda mo: '("IOSpec", <id>, <id>%s)' % (mo.group(1) or "")),
 ]
 _IFACE = re.compile(r'\("Interface", \((.*?)\)(, "[a-z]+")?\)$', re.M)
 
